@@ -22,9 +22,9 @@ var c06Chars = []string{"a", `"`, `\`, "n", "\n", "\t", "\r", "¬", "ʞ", "{", "
 	"t", "r", "u00e9", "x41", "U0001F600", "101"}
 
 // identifier characters (scanner's isIdentRune alphabet, reduced)
-var c06IdentChars = []string{"a", "b", "-", "1", "/", "<", "=", "ü", "*", "+", "?", "!", "_", ">", "$", "ʞ"}
+var c06IdentChars = []string{"a", "b", "-", "1", "/", "<", "=", "ü", "*", "+", "?", "!", "_", ">", "$", "ʞ", "٣"} // ٣: a non-ASCII decimal digit
 
-func isIdentStart(c string) bool { return c != "-" && c != "1" }
+func isIdentStart(c string) bool { return c != "-" && c != "1" && c != "٣" }
 
 // validSymbol: spellings the scanner returns as one Ident token that read_atom turns
 // into a symbol (transcribed from the scanner's documented identifier rule).
